@@ -37,7 +37,7 @@ pub struct PRule {
     pub cond: PCond,
     pub set: Option<(u8, i64)>,
     /// a Custom action calling a harness-registered function that WRITES facts: 0 = remove F.d,
-    /// 1 = set F.d to 7. Generated only on the highest salience level, one kind per workload, and
+    /// 1 = set F.d to 7, 2 = set F.e (a key nobody reads) to 7. Generated only on the highest salience level, one kind per workload, and
     /// F.d is read only by rules on lower levels — so the outcome is the same on every schedule
     #[serde(default)]
     pub custom: Option<u8>,
@@ -132,7 +132,7 @@ fn build_kb(w: &ParWorkload) -> KnowledgeBase {
             actions.push(ActionType::Set { field: fname(f), value: Value::Integer(v) });
         }
         if let Some(k) = r.custom {
-            actions.push(ActionType::Custom { action_type: if k % 2 == 0 { "dropD" } else { "setD7" }.to_string(), params: std::collections::HashMap::new() });
+            actions.push(ActionType::Custom { action_type: ["dropD", "setD7", "setE7"][k as usize % 3].to_string(), params: std::collections::HashMap::new() });
         }
         let mut rule = Rule::new(format!("R{i}"), to_group(&r.cond), actions).with_salience(r.salience);
         rule.enabled = r.enabled;
@@ -164,6 +164,11 @@ fn engine(w: &ParWorkload, enabled: bool) -> ParallelRuleEngine {
     });
     e.register_function("setD7", |_args: &[Value], f: &Facts| {
         f.set("F.d", Value::Integer(7));
+        Ok(Value::Boolean(true))
+    });
+    // writes a key of its own that no rule reads: may run beside either of the other two on any schedule
+    e.register_function("setE7", |_args: &[Value], f: &Facts| {
+        f.set("F.e", Value::Integer(7));
         Ok(Value::Boolean(true))
     });
     e
@@ -313,10 +318,14 @@ pub fn generate(rng: &mut Rng, _thorough: bool) -> ParWorkload {
         }
         let top = rules.iter().filter(|r| r.enabled).map(|r| r.salience).max().unwrap_or(0);
         let kind = rng.below(2) as u8;
+        // half of these workloads mix in a second writer on another key (F.e, read by nobody): two different
+        // kinds of write — set and remove, or two sets — then overlap in time without making the outcome
+        // depend on the schedule
+        let second_writer = rng.chance(1, 2);
         for r in rules.iter_mut().filter(|r| r.salience == top) {
             avoid_d(&mut r.cond);
             if rng.chance(1, 2) {
-                r.custom = Some(kind);
+                r.custom = Some(if second_writer && rng.chance(1, 2) { 2 } else { kind });
             }
         }
     }
